@@ -172,6 +172,10 @@ struct MeshNodeStorage final : SlotObserver {
   // mesh_subscribe inside it reads this as its "my_key" (the requester).
   ValuePtr current_eval_key{};
   DateTime retirement_time{MIN_DT};
+  // Set only while the node's own stop sweeps the live instances: a child
+  // stop() failure is recorded there (and rethrown by mesh_node_stop) instead
+  // of being swallowed; every other removal keeps the noexcept teardown path.
+  FirstExceptionRecorder *stop_failures{nullptr};
 
   void push_child_schedule(MeshChildSchedule schedule) {
     child_schedule_queue.push_back(schedule);
@@ -326,6 +330,10 @@ struct MeshNodeStorage final : SlotObserver {
     }
     if (entry != nullptr && entry->graph.has_value() &&
         entry->graph.view().started()) {
+      if (stop_failures != nullptr) {
+        stop_failures->capture([&] { entry->graph.view().stop(); });
+        return;
+      }
       static_cast<void>(fallback_on_exception(false, [&] {
         entry->graph.view().stop();
         return true;
@@ -1445,10 +1453,16 @@ void mesh_node_stop(const NodeView &view, DateTime evaluation_time) {
   auto output_dict = output.as_dict();
   auto output_mutation = output_dict.begin_mutation(evaluation_time);
 
+  // The node's own stop is not a teardown path: every live instance gets its
+  // stop attempt and the first failure reaches the caller (as map_ / reduce).
+  FirstExceptionRecorder failures;
+  storage.stop_failures = &failures;
   stop_and_clear_all_instances(
       view, *static_cast<const MeshNodeContext *>(mesh_view.internal_context()),
       storage, evaluation_time);
+  storage.stop_failures = nullptr;
   output_mutation.clear();
+  failures.rethrow_if_any();
 }
 } // namespace
 
